@@ -280,6 +280,8 @@ def run(ctx, rep):
     r15d(ctx, rep)
     from . import C14
     C14.r14g(ctx, rep, rule="R15e", only=STRMOD, floor=1)
+    from . import C06
+    C06.r06a_restricted(ctx, rep, "R15p", [STRMOD, "marwood::vm::builtin::char::"], "the string and character procedures never abort", 25)
     rep.not_decided += ["agreement of each procedure with a Vec<char> model (value-level)",
                         "that mutators change exactly the addressed characters",
                         "panic sites of these files (C06's inventory)"]
